@@ -175,6 +175,11 @@ def lbStep (s : DState) : List String → DState × String
       | "strategy", [name] =>
         let r := LB.setStrategy y name
         ({ s with lb := some r.1 }, if r.2 then "ok" else "err")
+      | "pickconc", [now, _workers, _k] =>
+        -- `dispatch_complete`: a pick comes back empty only if every backend is inside its window
+        match now.toNat? with
+        | some t => (s, if y.pool.any (fun o => !o.b.inWindow t) then "complete" else "n/a")
+        | none => (s, "bad-op")
       | "rrconc", [_workers, k] =>
         -- `rr_exact`: n*k atomic increments from any position give every backend exactly k picks,
         -- whatever the interleaving of the pickers
